@@ -179,6 +179,141 @@ pub struct FileNumber {''')]),
          edits=[(RRD, 'if frame_type.is_last_frame_of_record() {', 'if frame_type.is_last_frame_of_record() || frame_payload.is_empty() {')]),
 ]
 
+MUTANTS += [
+    # ---------------- LOG
+    dict(name='truncate_early_ok_before_log', props=['C01'], rules=['LOG1'],
+         desc='truncate: memory first, then an early Ok when nothing was evicted, before the WAL write',
+         edits=[(MRL, '''        let mut num_bytes_written =
+            self.record_log_writer
+                .write_record(MultiPlexedRecord::Truncate {
+                    truncate_range,
+                    queue,
+                })?;
+        let evicted_records = self
+            .in_mem_queues
+            .truncate(queue, truncate_range)
+            .unwrap_or(0);''', '''        let evicted_records = self
+            .in_mem_queues
+            .truncate(queue, truncate_range)
+            .unwrap_or(0);
+        if evicted_records == 0 {
+            return Ok(TruncateOutcome {
+                evicted_records,
+                wal_bytes_written: 0,
+            });
+        }
+        let mut num_bytes_written =
+            self.record_log_writer
+                .write_record(MultiPlexedRecord::Truncate {
+                    truncate_range,
+                    queue,
+                })?;''')]),
+    dict(name='replay_truncate_noop', props=['C01'], rules=['LOG2'],
+         desc='replay arm of Truncate does nothing',
+         edits=[(MRL, '''                        in_mem_queues.truncate(queue, truncate_range);
+                    }
+                    MultiPlexedRecord::RecordPosition''', '''                        let _ = (queue, truncate_range);
+                    }
+                    MultiPlexedRecord::RecordPosition''')]),
+    dict(name='forward_cursor_dropped', props=['C01', 'C02'], rules=['LOG5'],
+         desc='FrameReader::into_writer no longer forwards the in-block cursor',
+         edits=[(FRD, '''        let mut rolling_writer: RollingWriter = self.reader.into_writer()?;
+        rolling_writer.forward(self.cursor)?;''', '''        let rolling_writer: RollingWriter = self.reader.into_writer()?;''')]),
+    dict(name='delete_queue_mem_after_gc', props=['C01', 'C04'], rules=['GC10'],
+         desc='delete_queue: in-memory removal moved after the GC pass and the fsync',
+         edits=[(MRL, '''        self.in_mem_queues.delete_queue(queue)?;
+        num_bytes_written += self.run_gc_if_necessary()?;
+        self.persist(PersistAction::FlushAndFsync)?;''', '''        num_bytes_written += self.run_gc_if_necessary()?;
+        self.persist(PersistAction::FlushAndFsync)?;
+        self.in_mem_queues.delete_queue(queue)?;''')]),
+    dict(name='append_one_entry_per_record', props=['C12', 'C02'], rules=['LOG3', 'LOG4'],
+         desc='append_records writes one AppendRecords entry per record of the batch',
+         edits=[(MRL, '''        let records = MultiRecord::new_unchecked(&multi_record_spare_buffer);
+        let record = MultiPlexedRecord::AppendRecords {
+            position,
+            queue,
+            records,
+        };
+        let num_bytes_written = self.record_log_writer.write_record(record)?;
+        self.persist_on_policy()?;
+''', '''        let records = MultiRecord::new_unchecked(&multi_record_spare_buffer);
+        let mut num_bytes_written = 0u64;
+        let mut single = Vec::new();
+        for item in records {
+            let (item_position, item_payload) = item.unwrap();
+            MultiRecord::serialize(std::iter::once(item_payload), item_position, &mut single);
+            let record = MultiPlexedRecord::AppendRecords {
+                position: item_position,
+                queue,
+                records: MultiRecord::new_unchecked(&single),
+            };
+            num_bytes_written += self.record_log_writer.write_record(record)?;
+        }
+        self.persist_on_policy()?;
+''')]),
+    # ---------------- PERSIST / ROLL / SIZE
+    dict(name='truncate_no_policy_consult', props=['C03'], rules=['PS2'],
+         desc='drop persist_on_policy from truncate',
+         edits=[(MRL, '''        num_bytes_written += self.run_gc_if_necessary()?;
+        self.persist_on_policy()?;''', '''        num_bytes_written += self.run_gc_if_necessary()?;''')]),
+    dict(name='create_queue_no_persist', props=['C03'], rules=['PS1'],
+         desc='create_queue persists according to policy instead of always FlushAndFsync',
+         edits=[(MRL, '''        let num_bytes_written = self.record_log_writer.write_record(record)?;
+        self.persist(PersistAction::FlushAndFsync)?;
+        self.in_mem_queues.create_queue(queue)?;''', '''        let num_bytes_written = self.record_log_writer.write_record(record)?;
+        self.persist_on_policy()?;
+        self.in_mem_queues.create_queue(queue)?;''')]),
+    dict(name='always_policy_is_noop', props=['C03'], rules=['PS4'],
+         desc='From<PersistPolicy>: Always(_) => PersistState::NoOp',
+         edits=[(PP, 'PersistPolicy::Always(action) => PersistState::OnAppend(action),', 'PersistPolicy::Always(_action) => PersistState::NoOp,')]),
+    dict(name='always_fsync_answers_flush', props=['C03'], rules=['PS4'],
+         desc='should_persist answers Flush for OnAppend(FlushAndFsync)',
+         edits=[(PP, 'PersistState::OnAppend(action) => Some(*action),', 'PersistState::OnAppend(_action) => Some(PersistAction::Flush),')]),
+    dict(name='persist_sync_before_flush', props=['C03'], rules=['PS5'],
+         desc='FlushAndFsync arm: sync_data before flush',
+         edits=[(DIR, '''            PersistAction::FlushAndFsync => {
+                self.file.flush()?;
+                self.file.get_ref().sync_data()?;
+                self.directory.sync_directory()''', '''            PersistAction::FlushAndFsync => {
+                self.file.get_ref().sync_data()?;
+                self.file.flush()?;
+                self.directory.sync_directory()''')]),
+    dict(name='persist_no_dirsync', props=['C03'], rules=['PS5', 'PS1'],
+         desc='FlushAndFsync arm without sync_directory',
+         edits=[(DIR, '''                self.file.get_ref().sync_data()?;
+                self.directory.sync_directory()
+            }''', '''                self.file.get_ref().sync_data()
+            }''')]),
+    dict(name='policy_some_skips_small', props=['C03'], rules=['PS3'],
+         desc='persist_on_policy only persists when the action is an fsync ("flush happens on drop anyway")',
+         edits=[(MRL, '''        if let Some(persist_action) = self.next_persist.should_persist() {
+            self.persist(persist_action)?;''', '''        if let Some(persist_action) = self.next_persist.should_persist() {
+            if persist_action.is_fsync() {
+                self.persist(persist_action)?;
+            }''')]),
+    dict(name='persist_wrapper_downgrades', props=['C03'], rules=['PS7'],
+         desc='RecordWriter::persist always asks the frame writer for a plain Flush',
+         edits=[(RWR, 'self.frame_writer.persist(persist_action)', '{ let _ = persist_action; self.frame_writer.persist(PersistAction::Flush) }')]),
+    dict(name='rollover_without_sync', props=['C02', 'C03'], rules=['ROLL1'],
+         desc='roll-over without flush + sync of the old file',
+         edits=[(DIR, '''            self.file.flush()?;
+            self.file.get_ref().sync_data()?;
+            self.directory.sync_directory()?;
+
+            let (file_number, file) =''', '''            let (file_number, file) =''')]),
+    dict(name='create_truncates_existing', props=['C02', 'C17'], rules=['SZ1'],
+         desc='create_file: create_new(true) -> create(true).truncate(true)',
+         edits=[(DIR, '        .create_new(true)\n        .write(true)', '        .create(true)\n        .truncate(true)\n        .write(true)')]),
+    dict(name='create_without_set_len', props=['C02'], rules=['SZ1', 'SZ2'],
+         desc='create_file without set_len',
+         edits=[(DIR, '    file.set_len(FILE_NUM_BYTES as u64)?;\n    file.seek(SeekFrom::Start(0))?;', '    file.seek(SeekFrom::Start(0))?;')]),
+    dict(name='second_writer_in_forward', props=['C02', 'C15'], rules=['W1'],
+         desc='forward() zero-fills the skipped bytes with a direct write',
+         edits=[(DIR, '''        self.file.seek(SeekFrom::Current(num_bytes as i64))?;
+        self.offset += num_bytes;''', '''        self.file.write_all(&vec![0u8; num_bytes])?;
+        self.offset += num_bytes;''')]),
+]
+
 REFACTORS = [
     dict(name='rename_private_fns', desc='rename run_gc_if_necessary / record_empty_queues_position',
          edits=[(MRL, 'fn run_gc_if_necessary(&mut self)', 'fn maybe_collect_garbage(&mut self)'),
